@@ -478,6 +478,19 @@ fn cli_layer(tier: Tier) -> (u64, Vec<(String, Value)>) {
             } else {
                 bad.push("--stats summary missing".into());
             }
+            // the totals of the JSON summary message are the same statistics
+            if !invert {
+                if let Some(sum) = js_out.split(|&b| b == b'\n').filter_map(|l| serde_json::from_slice::<Value>(l).ok()).find(|v| v["type"] == "summary") {
+                    let js_searches = sum["data"]["stats"]["searches"].as_u64();
+                    let js_bytes = sum["data"]["stats"]["bytes_searched"].as_u64();
+                    if js_searches != num(" files searched") || js_bytes != num(" bytes searched") {
+                        bad.push(format!(
+                            "JSON summary: {:?} searches / {:?} bytes searched, --stats: {:?} files searched / {:?} bytes searched",
+                            js_searches, js_bytes, num(" files searched"), num(" bytes searched")
+                        ));
+                    }
+                }
+            }
             if !invert {
                 if let Some(m) = num(" matches") {
                     if m != cms.values().sum::<u64>() && !fs.contains(&"-m1") {
